@@ -351,11 +351,15 @@ func checkC02(r *vt.Run) {
 func checkC03B(r *vt.Run) {
 	var rc c02Case
 	if r.ReplayInto(&rc) {
-		if rc.N > 0 {
+		var cc c03cCase
+		if r.ReplayInto(&cc) && cc.Part == "C" {
+			c03cRun(r, cc)
+		} else if rc.N > 0 {
 			c02RunFor(r, "C03", rc, false)
 		}
 		return
 	}
+	defer checkC03C(r)
 	base := c02Case{N: 3, W: 1, Failover: true, MasterFirst: true}
 	window := c02RunFor(r, "C03", base, true)
 	r.R.Evaluations--
